@@ -58,3 +58,10 @@ add("C08", "exploration",
     "Upper bounds on observed gaps are not asserted (load-sensitive) except in the reset probe, where the two alternatives differ by "
     "two orders of magnitude. Connection-level failures retried inside Go's HTTP transport are not used as a failure kind.",
     "property-based testing (rapid) against a closed-form oracle; native go fuzzing; generated failure patterns with timestamp lower bounds", "3/C08")
+add("C09", "exploration",
+    "Generated client header sets (forged/repeated/re-cased identity fields, Authorization fields, noise) are sent as plain requests and "
+    "as websocket-shim open requests through 16 agent binaries, one per combination of --forward-user-id, --strip-credentials, shim and "
+    "session tracking, with generated proxy-asserted identities; a recording backend (HTTP and websocket handshake) checks the "
+    "exact-one-value / absent-field predicate, and pass-through when a flag is off. Inputs are sampled; the 16 configurations are all covered.",
+    "The backend is Go's HTTP server, which canonicalises field names (differently-cased copies are the same field, as for any HTTP peer).",
+    "property-based testing (rapid): generated header sets x all 16 flag configurations, predicate oracle at a recording backend", "3/C09")
